@@ -108,6 +108,19 @@ func Open(name string) (*File, error) {
 		}
 		return &File{name: name, pass: fp}, nil
 	}
+	if c := findCreated(name); c != nil {
+		// the path was created (or truncated) earlier by this very process
+		b, err := os.ReadFile(c.Real)
+		if err != nil {
+			trouble("read backing file: " + err.Error())
+		}
+		plan := Plan{}
+		if fsp := lookup(name); fsp != nil {
+			plan = fsp.Plan
+		}
+		journal.Faults = append(journal.Faults, "open:OWN-OUTPUT:"+name)
+		return newReadFile(name, b, plan), nil
+	}
 	fsp := lookup(name)
 	if fsp == nil {
 		journal.Faults = append(journal.Faults, "open:ENOENT:"+name)
